@@ -630,7 +630,7 @@ def spec_tables(spec):
 
 
 class TraceCase:
-    __slots__ = ("kernels", "wire_args", "source", "ops", "req", "kernel_error", "impl", "path", "mt", "rargs")
+    __slots__ = ("kernels", "wire_args", "source", "ops", "req", "kernel_error", "impl", "path", "mt", "rargs", "shared_impl")
 
     def as_case(self):
         return {"kernels": self.kernels, "args": self.wire_args, "source": self.source[len(PRELUDE):],
@@ -684,8 +684,21 @@ def trace_program(ctx, spec, traps, kernels, arg_sets, tracer=None):
             tc.path = None
             tc.impl = "err"
             ctx.count(f"impl_err_{type(e).__name__}")
+        # the same trace on one long-lived instance that has seen every earlier kernel of this run (failing ones included)
+        tc.shared_impl = None
+        if tracer is None:
+            sh = _SHARED.get(id(spec))
+            if sh is None or sh[0] is not spec:
+                sh = _SHARED[id(spec)] = (spec, TraceInterpreter(spec))
+            try:
+                tc.shared_impl = "ok " + canon_path(sh[1].run_trace(mt, tc.rargs, {}))
+            except Exception:  # noqa: BLE001
+                tc.shared_impl = "err"
         out.append(tc)
     return out
+
+
+_SHARED = {}
 
 
 def random_traces(ctx, spec, n_prog, tracer=None):
